@@ -775,6 +775,13 @@ def generate(seed, profile_name, tie=None, overrides=None, catching=False):
         prof['p_raise_stop'] = 0
     spec = Gen(rng, prof).generate(seed)
     spec['profile'] = profile_name
+    if prof.get('p_pre_offset'):
+        # one-shot offsets requested after the model was built and before its first run (a warm-up, a first set-up);
+        # own PRNG stream, so the model itself stays what it was
+        orng = random.Random(core.stable_int('preoffset', seed, profile_name))
+        for it in spec['items']:
+            if it['kind'] in ('handler', 'processor', 'sink') and orng.random() < prof['p_pre_offset']:
+                it['pre_offset'] = orng.choice([0.5, 1, 2.5, 4, -0.25, 0.125])
     if overrides and overrides.get('decimal'):
         spec['decimal'] = True
     if tie:
